@@ -39,6 +39,7 @@ def gen_case(rng, thorough, expiry=False):
             ops.append({"op": "addRule", "id": n, "rule": rule})
         else:
             f = {"v": rng.choice([1, "x", True]), "k": n}
+            if rng.random() < 0.5: f["ref"] = rng.choice(nodes + ["ghost"])      # merely mentions another id: not a dependency
             if dw: f["deleteWith"] = dw
             if rng.random() < 0.1: f["deleteWith"] = dw + [7, {"x": 1}]   # non-string entries are ignored by the cascade
             ops.append({"op": "addFact", "id": n, "fact": f})
